@@ -18,6 +18,9 @@ static OutPt* vf_new_outpt(Point64 pt, OutRec* outrec) { __CPROVER_assert(g_nnew
 //@sub /pt == (op_\w+)->pt/Point64_eq(pt, \1->pt)/ min=1
 //@sub /new OutPt\(/vf_new_outpt(/
 //@end
+//@extract file=CPP/Clipper2Lib/src/clipper.engine.cpp func=GetLastOp byptr=hot_edge ifdef=ADDOUTPT
+//@sub /&\(\*hot_edge\)/hot_edge/ min=0
+//@end
 void h_AddOutPt(void)
 {
   /* ring of R nodes: pts = node 0 (the front end), its ->next = node 1 % R (the back end) */
@@ -38,6 +41,8 @@ void h_AddOutPt(void)
     __CPROVER_assert(!Point64_eq(g_new.pt, end->pt), "the new vertex differs from the end it extends");
   }
   for (int i = 2; i < R; ++i) __CPROVER_assert(g_ring[i].next == &g_ring[(i + 1) % R] && g_ring[i].prev == &g_ring[i - 1], "rest of the ring untouched");
+  /* C02: the vertex DoHorizontal offers as a horizontal-join candidate is the one this edge added last (on ITS side of the contour) */
+  __CPROVER_assert(GetLastOp(&e) == r, "GetLastOp(edge) is the vertex the edge's last AddOutPt produced (or refused to duplicate)");
   VF_CANARY();
 }
 #endif
@@ -194,9 +199,9 @@ void h_Dup(void)
   VF_CANARY();
 }
 #endif
-//@run name=AddOutPt.ring1 entry=h_AddOutPt defs=ADDOUTPT,R=1 unwind=6 flags="--bounds-check --pointer-check" solver=cadical timeout=120
-//@run name=AddOutPt.ring2 entry=h_AddOutPt defs=ADDOUTPT,R=2 unwind=6 flags="--bounds-check --pointer-check" solver=cadical timeout=120
-//@run name=AddOutPt.ring3 entry=h_AddOutPt defs=ADDOUTPT,R=3 unwind=6 flags="--bounds-check --pointer-check" solver=cadical timeout=120
+//@run name=AddOutPt.ring1 entry=h_AddOutPt defs=ADDOUTPT,R=1 unwind=6 flags="--bounds-check --pointer-check" solver=cadical timeout=120 props=C01,C03,C02,C10,C14
+//@run name=AddOutPt.ring2 entry=h_AddOutPt defs=ADDOUTPT,R=2 unwind=6 flags="--bounds-check --pointer-check" solver=cadical timeout=120 props=C01,C03,C02,C10,C14
+//@run name=AddOutPt.ring3 entry=h_AddOutPt defs=ADDOUTPT,R=3 unwind=6 flags="--bounds-check --pointer-check" solver=cadical timeout=120 props=C01,C03,C02,C10,C14
 //@run name=JoinOutrecPaths.1x1 entry=h_Join defs=JOIN,R=1,R2=1 unwind=8 flags="--bounds-check --pointer-check" solver=cadical timeout=120
 //@run name=JoinOutrecPaths.2x1 entry=h_Join defs=JOIN,R=2,R2=1 unwind=8 flags="--bounds-check --pointer-check" solver=cadical timeout=120
 //@run name=JoinOutrecPaths.2x3 entry=h_Join defs=JOIN,R=2,R2=3 unwind=8 flags="--bounds-check --pointer-check" solver=cadical timeout=120
